@@ -276,6 +276,7 @@ func init() {
 		feat := fs.String("feat", "restarts,batches,merges,backups,bigvals", "features")
 		ops := fs.Int("ops", 40, "ops per scenario")
 		io := fs.Int("io", -1, "force FileIOType")
+		variants := fs.Int("variants", 1, "lock-step variants of every scenario under other configurations")
 		_ = fs.Parse(args)
 		_ = kind
 		o := EngineGenOpts{Ops: *ops, FixedIO: *io}
@@ -297,8 +298,22 @@ func init() {
 		h := map[string]int{}
 		var lines []string
 		for i := 0; i < *n; i++ {
-			lines = append(lines, fmt.Sprintf("S %d", i))
-			lines = append(lines, GenEngineScript(r, o, h)...)
+			sc := GenEngineScript(r, o, h)
+			if *variants <= 1 {
+				lines = append(lines, fmt.Sprintf("S %d", i))
+				lines = append(lines, sc...)
+				continue
+			}
+			// the same operations under independently drawn configurations (C14)
+			for v := 0; v < *variants; v++ {
+				lines = append(lines, fmt.Sprintf("S %d.%c", i, 'a'+v))
+				for _, l := range sc {
+					if v > 0 && strings.HasPrefix(l, "E open ") {
+						l = "E open " + genCfg(r, o, h).String()
+					}
+					lines = append(lines, l)
+				}
+			}
 		}
 		writeLines(*out, lines)
 		writeHistFile(*histp, h)
